@@ -77,6 +77,7 @@ type Task struct {
 	site     uint32
 	hits     []uint32
 	syncHits uint32
+	parks    int
 	done     atomic.Bool
 	rng      *SplitMix64 // per-task stream (map permutations)
 	stderr   *strings.Builder
@@ -100,6 +101,16 @@ type Config struct {
 	MaxSteps  uint64 // scheduler steps after which the run is abandoned (free-running drain)
 	MapSeed   uint64 // seed of map-iteration permutations (0: runtime order)
 	KeepLog   bool
+	// Freeze strategy (atomicity windows): when FreezeAt > 0, client task
+	// FreezeClient is taken out of the runnable set at its FreezeAt-th park and
+	// stays out until nothing else can run (the others finished or block).
+	// One tape-independent decision that opens a window as wide as a whole
+	// client, which dense random switching almost never produces.
+	FreezeClient int
+	FreezeAt     int
+	// Procs is what woven runtime.GOMAXPROCS(0)/runtime.NumCPU() calls return
+	// during this run (0: the real value).
+	Procs int
 }
 
 // Event is one scheduler decision.
@@ -121,6 +132,7 @@ type Result struct {
 	Log         []Event
 	Adjacent    []uint64 // distinct (site before switch, site after switch) pairs
 	Deadlock    bool
+	Thawed      int  // the frozen client was released because nothing else could run
 	Abandoned   bool // MaxSteps reached: drained free-running
 	TapeUsed    int
 	ClientPanic []string
@@ -217,6 +229,7 @@ func (s *Sim) yield(site uint32) {
 }
 
 func (t *Task) park(site uint32) {
+	t.parks++
 	t.site = site
 	t.parked.Store(true)
 	<-t.wake
@@ -290,10 +303,20 @@ func Run(cfg Config, clients []Client) Result {
 			break
 		}
 		var runnable []*Task
+		var frozen *Task
 		for _, t := range *s.tasks.Load() {
 			if t.parked.Load() {
+				if s.cfg.FreezeAt > 0 && t == s.clients[s.cfg.FreezeClient%len(s.clients)] && t.parks >= s.cfg.FreezeAt {
+					frozen = t
+					continue
+				}
 				runnable = append(runnable, t)
 			}
+		}
+		if len(runnable) == 0 && frozen != nil {
+			runnable = append(runnable, frozen)
+			s.cfg.FreezeAt = 0 // thawed for good
+			s.res.Thawed++
 		}
 		if len(runnable) == 0 {
 			s.res.Deadlock = true
@@ -372,6 +395,14 @@ func Run(cfg Config, clients []Client) Result {
 		s.res.Stderr = append(s.res.Stderr, c.stderr.String())
 	}
 	return s.res
+}
+
+// Procs replaces runtime.GOMAXPROCS(0) and runtime.NumCPU() in woven code.
+func Procs() int {
+	if s := cur.Load(); s != nil && s.cfg.Procs > 0 {
+		return s.cfg.Procs
+	}
+	return runtime.GOMAXPROCS(0)
 }
 
 // StderrWriter is what woven code writes to instead of os.Stderr: in a
